@@ -226,15 +226,15 @@ func ExtractTables(astNode *ast.AST) []string {
 		return nil
 	}
 
-	collector := &tableCollector{
-		tables: make(map[string]bool),
-	}
-
-	for _, stmt := range astNode.Statements {
-		collector.collectFromNode(stmt)
-	}
-
-	return collector.toSlice()
+	seen := make(map[string]bool)
+	result := make([]string, 0)
+	walkTableNames(astNode, func(name string) {
+		if !seen[name] {
+			seen[name] = true
+			result = append(result, name)
+		}
+	})
+	return result
 }
 
 // ExtractTablesQualified extracts all table names with their qualifiers (schema.table).
@@ -259,11 +259,7 @@ func ExtractTablesQualified(astNode *ast.AST) []QualifiedName {
 	collector := &qualifiedTableCollector{
 		tables: make(map[string]QualifiedName),
 	}
-
-	for _, stmt := range astNode.Statements {
-		collector.collectFromNode(stmt)
-	}
-
+	walkTableNames(astNode, collector.addTable)
 	return collector.toSlice()
 }
 
@@ -290,15 +286,15 @@ func ExtractColumns(astNode *ast.AST) []string {
 		return nil
 	}
 
-	collector := &columnCollector{
-		columns: make(map[string]bool),
-	}
-
-	for _, stmt := range astNode.Statements {
-		collector.collectFromNode(stmt)
-	}
-
-	return collector.toSlice()
+	seen := make(map[string]bool)
+	result := make([]string, 0)
+	walkColumnRefs(astNode, func(table, name string) {
+		if !seen[name] {
+			seen[name] = true
+			result = append(result, name)
+		}
+	})
+	return result
 }
 
 // ExtractColumnsQualified extracts all column references with their table qualifiers.
@@ -329,11 +325,7 @@ func ExtractColumnsQualified(astNode *ast.AST) []QualifiedName {
 	collector := &qualifiedColumnCollector{
 		columns: make(map[string]QualifiedName),
 	}
-
-	for _, stmt := range astNode.Statements {
-		collector.collectFromNode(stmt)
-	}
-
+	walkColumnRefs(astNode, collector.addColumn)
 	return collector.toSlice()
 }
 
@@ -357,15 +349,119 @@ func ExtractFunctions(astNode *ast.AST) []string {
 		return nil
 	}
 
-	collector := &functionCollector{
-		functions: make(map[string]bool),
-	}
-
+	seen := make(map[string]bool)
+	result := make([]string, 0)
 	for _, stmt := range astNode.Statements {
-		collector.collectFromNode(stmt)
+		ast.Inspect(stmt, func(n ast.Node) bool {
+			if fn, ok := n.(*ast.FunctionCall); ok && fn != nil && fn.Name != "" && !seen[fn.Name] {
+				seen[fn.Name] = true
+				result = append(result, fn.Name)
+			}
+			return true
+		})
 	}
+	return result
+}
 
-	return collector.toSlice()
+// walkTableNames calls add for every name written in a table position anywhere
+// in the tree: FROM lists and joins of every (sub-)query, the targets of
+// INSERT / UPDATE / DELETE / MERGE, UPDATE ... FROM, DELETE ... USING and the
+// MERGE source. Every node is visited exactly once (ast.Inspect), so the cost
+// is linear in the size of the tree.
+func walkTableNames(astNode *ast.AST, add func(name string)) {
+	addRef := func(ref ast.TableReference) {
+		if ref.Name != "" {
+			add(ref.Name)
+		}
+	}
+	for _, stmt := range astNode.Statements {
+		ast.Inspect(stmt, func(n ast.Node) bool {
+			switch v := n.(type) {
+			case *ast.SelectStatement:
+				if v == nil {
+					return true
+				}
+				for _, from := range v.From {
+					addRef(from)
+				}
+				for _, join := range v.Joins {
+					addRef(join.Right)
+				}
+			case *ast.InsertStatement:
+				if v != nil && v.TableName != "" {
+					add(v.TableName)
+				}
+			case *ast.UpdateStatement:
+				if v == nil {
+					return true
+				}
+				if v.TableName != "" {
+					add(v.TableName)
+				}
+				for _, from := range v.From {
+					addRef(from)
+				}
+			case *ast.DeleteStatement:
+				if v == nil {
+					return true
+				}
+				if v.TableName != "" {
+					add(v.TableName)
+				}
+				for _, using := range v.Using {
+					addRef(using)
+				}
+			case *ast.MergeStatement:
+				if v != nil {
+					addRef(v.TargetTable)
+					addRef(v.SourceTable)
+				}
+			}
+			return true
+		})
+	}
+}
+
+// walkColumnRefs calls add(table, name) for every column reference anywhere in
+// the tree: every identifier node other than "*", plus the column names that
+// MERGE actions carry as plain strings (SET targets and INSERT column lists).
+func walkColumnRefs(astNode *ast.AST, add func(table, name string)) {
+	addDotted := func(col string) {
+		if col == "" {
+			return
+		}
+		if i := strings.LastIndex(col, "."); i >= 0 {
+			add(col[:i], col[i+1:])
+			return
+		}
+		add("", col)
+	}
+	for _, stmt := range astNode.Statements {
+		ast.Inspect(stmt, func(n ast.Node) bool {
+			switch v := n.(type) {
+			case *ast.Identifier:
+				if v != nil && v.Name != "" && v.Name != "*" {
+					add(v.Table, v.Name)
+				}
+			case *ast.MergeStatement:
+				if v == nil {
+					return true
+				}
+				for _, when := range v.WhenClauses {
+					if when == nil || when.Action == nil {
+						continue
+					}
+					for _, set := range when.Action.SetClauses {
+						addDotted(set.Column)
+					}
+					for _, col := range when.Action.Columns {
+						addDotted(col)
+					}
+				}
+			}
+			return true
+		})
+	}
 }
 
 // tableCollector collects table names from AST nodes
